@@ -302,6 +302,29 @@ CLAIMED.update({
     },
 })
 
+CLAIMED.update({
+    "C53": {
+        "technique": "static analysis: census of Stream impls owning a BaselineMetrics vs recorders in their poll_next call tree; exhaustive path enumeration over MIR with value-origin tags (record-once with inner/outer recorder summaries, one registration of output metrics per construction path); who-may-write + value-origin + success-edge ordering for spilled_rows",
+        "level": ("Static: every stream type in physical-plan/datasource* that owns a BaselineMetrics (27) records output in the call tree "
+                  "of its poll_next or is wrapped in an ObservedStream fed with a clone of its metrics at every construction site (this rule "
+                  "found the missing record_poll of the classic piecewise merge join, repaired by fix commit b1f719d); on all paths of the 35 "
+                  "functions that record output no value is recorded twice, including record_poll over a local callee that already "
+                  "recorded what it returns; on all paths of the 45 functions that register output metrics at most one registration is made "
+                  "per produced stream (wrapper and wrapped stream cannot both count: the preserve-order repartition case); spilled_rows is "
+                  "written only by InProgressSpillFile::append_batch, exactly once per successful write, with the row count that write "
+                  "returned. Necessary conditions of 'reported rows = emitted rows'; the counts themselves and double counting across "
+                  "dyn-dispatched operator boundaries are not decided."),
+    },
+    "C37": {
+        "technique": "static analysis: exhaustive evaluation of the Substrait producer's finite mappings composed with the consumer's inverse mappings (prost TryFrom<i32> modelled from exported discriminants; inline tables extracted by forcing the domain of the wire-typed local)",
+        "level": ("Static, exhaustive: consumer(producer(v)) = v for every value of five finite tags the Substrait round trip carries — join type "
+                  "(10, also checked against the specification's names), sort direction (asc x nulls_first, both SortField producers), time "
+                  "precision (4), window bounds type (Rows/Range; Groups refused), type nullability (incl. Unspecified read as nullable). A "
+                  "thin necessary condition of 'same rows after a round trip'; expressions, literals, schemas and function resolution are "
+                  "value-level and not decided."),
+    },
+})
+
 NA = {
     'C01': 'whole-pipeline value semantics over all queries x all table contents: functional verification, no clause visible in code shape beyond C03/C05/C47',
     'C08': 'ordering/permutation of runtime values (loser tree, cursors, heaps are value algorithms); no structural clause',
